@@ -8,7 +8,7 @@ open Std
 
 namespace Rigo.TM
 
-open Rigo.C14
+open Rigo.C14L
 
 theorem rewardTo_lists (s : St) (d : Delegatee) (H : Int) (s' : St) (n : Nat) (h : rewardTo s d H = .ok (s', n)) :
     s'.allDelegs = s.allDelegs ∧ s'.lastVals = s.lastVals ∧ s'.active = s.active ∧ s'.delegs = s.delegs := by
